@@ -23,13 +23,28 @@ def derived(names):
     """the decode instances re-used as sources of accepted inputs (vectors re-interpreted by `replay --derive`)"""
     out = []
     for n in names:
-        j = dict([x for x in sum(JOBS_BASE.values(), []) if x["module"] == n][0])
+        j = dict([x for x in sum(JOBS_BASE.values(), []) if x.get("module") == n][0])
         j["derive"] = True
         out.append(j)
     return out
 
 
 JOBS = {
+    "C01": [
+        {"module": "MC_DecodeTotal", "spec": "Spec", "invariants": ["InvDecodeTotal", "InvOrig", "InvDocPanic", "InvEncodeOk", "Emit"],
+         "quick": {"timeout": 300, "fuzz_per_wire": 20}, "thorough": {"timeout": 1200, "fuzz_per_wire": 400},
+         "rule": "(a) TLC: accepted items x 3 encodings x every follow-up action incl. the documented-panic ones, replayed; each injected wire "
+                 "is also mutated (seeded) and pushed through all 36 byte-level entry points with follow-ups; (b) nesting recipes over 13 recursive "
+                 "positions x repetition counts up to 4096 (65536 thorough), decoded in a child process on the default stack; (c) all byte strings "
+                 "of length <= 2, the repository's own test vectors and seeded mutations of them, uniform random strings. "
+                 "non-trivial = input accepted by the entry point (follow-ups exercised) or recipe with repetition > 3"},
+        {"module": "MC_Nesting", "spec": "Spec", "invariants": ["InvRecipeParses", "InvReturns", "Emit"],
+         "quick": {"constants": {"Reps": "{1, 2, 3, 8, 256, 4096}", "MaxSteps": 1}, "timeout": 600},
+         "thorough": {"constants": {"Reps": "{1, 2, 3, 8, 256, 4096, 65536}", "MaxSteps": 2}, "timeout": 3000}},
+        {"kind": "cmd", "name": "fuzz", "cmd": ["fuzz", "--prop", "C01", "--seed", "{seed}", "--tier", "{tier}", "--summary", "{summary}",
+                                               "--replay-dir", "{replays}"],
+         "quick": {"timeout": 600}, "thorough": {"timeout": 3000}},
+    ],
     "C07": [
         {"module": "MC_FixedPoint", "spec": "Spec", "invariants": ["InvAccepted", "InvFixedPoint", "InvF7", "Emit"],
          "quick": {"timeout": 300}, "thorough": {"timeout": 1200},
